@@ -96,8 +96,12 @@ class Fn:
             return v.id in names or isinstance(self.module_value(v), str)
         if isinstance(v, ast.Attribute) and isinstance(v.value, ast.Name) and v.value.id == "Severity":
             return True
+        if isinstance(v, ast.Attribute) and isinstance(self.module_value(v), str):
+            return True                 # self.MESSAGE / Class.MESSAGE: a class-level text
         if isinstance(v, ast.Call) and is_result_ctor(v):
             return True
+        if is_format_call(v):
+            return self.fragment(v.func.value, names)
         return False
 
     def module_value(self, node):
@@ -125,6 +129,11 @@ class _NoValue:
 
 
 _NOVALUE = _NoValue()
+
+
+def is_format_call(v):
+    return (isinstance(v, ast.Call) and isinstance(v.func, ast.Attribute) and v.func.attr == "format"
+            and not any(isinstance(a, ast.Starred) for a in v.args) and all(k.arg is not None for k in v.keywords))
 
 
 def is_result_ctor(call):
@@ -460,23 +469,53 @@ def template_parts(node, slots, fn):
             slots.append(src)
         return slots.index(src)
 
+    def text_of(n):
+        """the run-time text of an expression that names a constant string, else None"""
+        if isinstance(n, ast.Constant) and isinstance(n.value, str):
+            return n.value
+        v = fn.module_value(n)
+        return v if isinstance(v, str) else None
+
+    def inner(e):
+        """one substituted value: nested templates are flattened, constants become text, the rest a placeholder"""
+        if isinstance(e, ast.JoinedStr) or (isinstance(e, ast.Constant) and isinstance(e.value, str)) \
+                or (isinstance(e, ast.BinOp) and isinstance(e.op, ast.Add) and fn.fragment(e, set())) \
+                or (is_format_call(e) and text_of(e.func.value) is not None):
+            return go(e)
+        if text_of(e) is not None:
+            return [("lit", text_of(e))]
+        return [("var", slot(ast.unparse(e)))]
+
     def go(n):
         if isinstance(n, ast.Constant) and isinstance(n.value, str):
             return [("lit", n.value)]
+        if is_format_call(n) and text_of(n.func.value) is not None:
+            # "...{name}...{}...".format(a, name=b): same text as the f-string with the arguments in place
+            import string
+            out, auto = [], 0
+            kws = {k.arg: k.value for k in n.keywords}
+            for lit, field, spec, conv in string.Formatter().parse(text_of(n.func.value)):
+                if lit:
+                    out.append(("lit", lit))
+                if field is None:
+                    continue
+                arg = None
+                if not spec and not conv:
+                    if field == "":
+                        arg, auto = (n.args[auto] if auto < len(n.args) else None), auto + 1
+                    elif field.isdigit():
+                        arg = n.args[int(field)] if int(field) < len(n.args) else None
+                    elif field.isidentifier():
+                        arg = kws.get(field)
+                out += inner(arg) if arg is not None else [("var", slot("!format:{%s!%s:%s}" % (field, conv, spec)))]
+            return out
         if isinstance(n, ast.JoinedStr):
             out = []
             for v in n.values:
                 if isinstance(v, ast.Constant):
                     out.append(("lit", v.value))
                 elif isinstance(v, ast.FormattedValue) and v.conversion == -1 and v.format_spec is None:
-                    inner = v.value
-                    if isinstance(inner, (ast.JoinedStr,)) or (isinstance(inner, ast.Constant) and isinstance(inner.value, str)) \
-                            or (isinstance(inner, ast.BinOp) and isinstance(inner.op, ast.Add) and fn.fragment(inner, set())):
-                        out += go(inner)
-                    elif isinstance(fn.module_value(inner), str):
-                        out.append(("lit", fn.module_value(inner)))
-                    else:
-                        out.append(("var", slot(ast.unparse(inner))))
+                    out += inner(v.value)
                 else:
                     out.append(("var", slot("!format:" + ast.unparse(v))))
             return out
